@@ -1,5 +1,7 @@
 import PysnarkModel.Lemmas.QaptoolsScope
 import PysnarkModel.Lemmas.QaptoolsGlue
+import PysnarkModel.Lemmas.QaptoolsFile
+import PysnarkModel.Lemmas.QaptoolsText
 import PysnarkModel.Gen.Constants
 /-!
 # C12 — qaptools equation/wire/I-O files are consistent and split faithfully
@@ -562,5 +564,324 @@ example : C12_pub_linked_full ∧ pubsOf exOps = [7] ∧ (run C12cfg 1 2 3 exOps
 and `outer` -/
 example : ((run C12cfg 1 2 3 (exOps.take 7)).stack.map fun f => (f.old, f.new)) =
     [("main_3_outer", "main_3_outer_1_inner"), ("main", "main_3_outer")] := by decide +kernel
+
+/-! ## 7. wire names and call contexts are pairwise distinct (the hypothesis `E.ok` is a theorem) -/
+
+/-- For every history: the names written to the wire file and to the I/O file are pairwise distinct and
+none is the built-in `<ctx>/one` (`Env.ok`, the hypothesis of the satisfaction theorems above), and `main`
+and the contexts given to the calls are pairwise distinct.  Function names are arbitrary strings. -/
+theorem C12_names_distinct (cfg : Cfg) (d1 d2 d3 : Int) (ops : List Op) :
+    let s := run cfg d1 d2 d3 ops
+    Env.ok ⟨cfg.p, s.wires, s.ios⟩ ∧ ("main" :: (callsOf cfg d1 d2 d3 ops).map Prod.fst).Nodup :=
+  ⟨keysOk_of_ninv _ (ninv_run cfg d1 d2 d3 ops), calls_nodup cfg d1 d2 d3 ops⟩
+
+/-- Clause 1 with the hypothesis on names discharged: hypotheses C01 and C04 only -/
+def C12_eqs_sat_closed_full : Prop :=
+  ∀ (cfg : Cfg) (d1 d2 d3 : Int) (ops : List Op),
+    let s := run cfg d1 d2 d3 ops
+    let E : Env := ⟨cfg.p, s.wires, s.ios⟩
+    (∀ c ∈ consOf ops, ConHold E c) → (∀ x ∈ lcsOf ops, Coherent E x) →
+    ∀ l ∈ s.eqs, holds cfg.p (asgOf s.wires s.ios) "" l = true
+
+theorem C12_eqs_sat_closed : C12_eqs_sat_closed_full := by
+  intro cfg d1 d2 d3 ops s E hc hl
+  exact C12_eqs_sat cfg d1 d2 d3 ops (C12_names_distinct cfg d1 d2 d3 ops).1 hc hl
+
+/-- Clause 4, values, for the code as it is, with the hypothesis on names discharged -/
+theorem C12_glue_equal_closed (d1 d2 d3 : Int) (pre post : List Op)
+    (rets : List Arg) (rndv r2a r2b : Int) (f : Frame) (rest : List Frame)
+    (hst : (run C12cfg d1 d2 d3 pre).stack = f :: rest) :
+    let ops := pre ++ .leave rets rndv r2a r2b :: post
+    let sf := run C12cfg d1 d2 d3 ops
+    let E : Env := ⟨C12cfg.p, sf.wires, sf.ios⟩
+    (∀ x ∈ lcsOf ops, Coherent E x) →
+    ∃ bn1 bn2 vs1 vs2,
+      blockLine f.old bn1 vs1 ∈ onDisk C12cfg sf ∧ blockLine f.new bn2 vs2 ∈ onDisk C12cfg sf ∧
+      glueLine f.old bn1 f.new bn2 ∈ onDisk C12cfg sf ∧ PairwiseEq E vs1 vs2 := by
+  intro ops sf E hcoh
+  exact C12_glue_equal d1 d2 d3 pre post rets rndv r2a r2b f rest hst (C12_names_distinct C12cfg d1 d2 d3 ops).1 hcoh
+
+/-! ## 8. the equations of a per-function file hold for each call of the function -/
+
+/-- A per-function file holds the normalised equation set of a call: the lines read back with blanks and
+contexts removed.  Read for the context `x` of a call (a bare name refers to `x`, `Spec/QapEq.lean`), every
+line of the normalised set of `x` holds modulo `p` on the wire and I/O files of the run (hypotheses C01 and
+C04 only; either setting of the two switches).  Hence the file written for a function holds for every call
+whose normalised set it is; that is every call of the function when the digest does not collide on the sets
+of this run (otherwise `prove()` has compared digests only). -/
+theorem C12_function_file_sat {Dg : Type} [DecidableEq Dg] (H : List Line → Dg) (cfg : Cfg) (d1 d2 d3 : Int)
+    (ops : List Op) (out : SplitOut Dg) (h : prove H cfg (run cfg d1 d2 d3 ops) = .ok out) :
+    let s := run cfg d1 d2 d3 ops
+    let E : Env := ⟨cfg.p, s.wires, s.ios⟩
+    (∀ c ∈ consOf ops, ConHold E c) → (∀ x ∈ lcsOf ops, Coherent E x) →
+    (∀ x l, l ∈ getqap out.acc x → holds cfg.p (asgOf s.wires s.ios) x l = true) ∧
+    (∀ fq ∈ out.files, ∀ x, (x, fq.1) ∈ out.acc.fns → getqap out.acc x = fq.2 →
+      ∀ l ∈ fq.2, holds cfg.p (asgOf s.wires s.ios) x l = true) ∧
+    ((∀ x y, x ∈ out.acc.fns.map Prod.fst → y ∈ out.acc.fns.map Prod.fst →
+        H (getqap out.acc x) = H (getqap out.acc y) → getqap out.acc x = getqap out.acc y) →
+      ∀ x f, (x, f) ∈ out.acc.fns → ∃ q, (f, q) ∈ out.files ∧
+        ∀ l ∈ q, holds cfg.p (asgOf s.wires s.ios) x l = true) := by
+  intro s E hc hl
+  have key := getqap_sat H cfg d1 d2 d3 ops out h hc hl
+  refine ⟨key, ?_, ?_⟩
+  · intro fq _ x _ he l hm
+    exact key x l (by rw [he]; exact hm)
+  · intro hinj x f hx
+    obtain ⟨_, _, k3⟩ := C12_digest_partial H _ out h hinj
+    exact ⟨getqap out.acc x, k3 x f hx, fun l hm => key x l hm⟩
+
+/-! ## 9. the `[function]` lines, the schedule file and the call table follow the calls of the history -/
+
+/-- For the code as it is (for every `cfg` that flushes in `prove()`): the `[function]` lines of the
+equation file are `main` followed by ONE line per call of the history, in call order, naming the function
+and the context the call got; its `[glue]` lines are one per return, in order, pairing the caller's and the
+callee's context of the frame that return pops (the model's stack is last-in first-out: a return closes
+the innermost call that is still open; a call whose body raised is never closed); the schedule file holds,
+in file order, one entry per `[function]` line (the call and the three files of its function) and every
+`[glue]` line verbatim, nothing else; the call table `fns` of `qapsplit` is exactly the list of calls; and
+the contexts are pairwise distinct. -/
+theorem C12_schedule_calls {Dg : Type} [DecidableEq Dg] (H : List Line → Dg) (cfg : Cfg)
+    (hf : cfg.flushAtProve = true) (d1 d2 d3 : Int) (ops : List Op) (out : SplitOut Dg)
+    (h : prove H cfg (run cfg d1 d2 d3 ops) = .ok out) :
+    let s := run cfg d1 d2 d3 ops
+    s.eqs.filterMap fnOf = ("main", "main") :: callsOf cfg d1 d2 d3 ops ∧
+    s.eqs.filterMap glueOf = returnsOf cfg d1 d2 d3 ops ∧
+    out.acc.schedule = s.eqs.filterMap schedLine ∧
+    out.acc.fns = ("main", "main") :: callsOf cfg d1 d2 d3 ops ∧
+    ("main" :: (callsOf cfg d1 d2 d3 ops).map Prod.fst).Nodup := by
+  intro s
+  obtain ⟨sh, hfn, hgl⟩ := shape_run cfg d1 d2 d3 ops
+  have hnd := calls_nodup cfg d1 d2 d3 ops
+  obtain ⟨h1, _⟩ := splitLines_of_qapsplit H _ out h
+  have hD : onDisk cfg s = s.eqs := by simp [onDisk, hf]
+  rw [hD] at h1
+  obtain ⟨a1, a2⟩ := splitLines_sched s.eqs Acc.empty out.acc h1
+  refine ⟨hfn, hgl, ?_, ?_, hnd⟩
+  · rw [a1, sched_eq s.eqs sh]; simp [Acc.empty]
+  · rw [a2, fnsAfter_eq s.eqs sh, hfn]
+    have := foldl_sset_nodup (("main", "main") :: callsOf cfg d1 d2 d3 ops) [] (by simpa using hnd)
+    simpa [Acc.empty] using this
+
+/-- "Nested calls are properly bracketed", as a statement about the FILE: reading its `[function]` and
+`[glue]` lines in order (`openEv`: a `[function]` line opens its context; `[glue] old _ new _` needs `new`
+open and `old` directly below it once `new` and the contexts opened inside `new` and never closed — calls
+whose body raised — are removed) never fails, for any history; the contexts open at the end are pairwise
+distinct and the innermost one is the context the backend is in. -/
+theorem C12_calls_bracketed (cfg : Cfg) (d1 d2 d3 : Int) (ops : List Op) :
+    ∃ FS, openEv [] ((run cfg d1 d2 d3 ops).eqs.filterMap evOf) = some FS ∧
+      FS.head? = some (run cfg d1 d2 d3 ops).ctx ∧ FS.Nodup :=
+  bracket_run cfg d1 d2 d3 ops
+
+/-- the schedule file for either setting of the flush: one entry per `[function]` line and every `[glue]`
+line that is ON DISK when `prove()` reads the equation file -/
+theorem C12_schedule_on_disk {Dg : Type} [DecidableEq Dg] (H : List Line → Dg) (cfg : Cfg)
+    (d1 d2 d3 : Int) (ops : List Op) (out : SplitOut Dg)
+    (h : prove H cfg (run cfg d1 d2 d3 ops) = .ok out) :
+    out.acc.schedule = (onDisk cfg (run cfg d1 d2 d3 ops)).filterMap schedLine := by
+  obtain ⟨sh, _, _⟩ := shape_run cfg d1 d2 d3 ops
+  obtain ⟨h1, _⟩ := splitLines_of_qapsplit H _ out h
+  obtain ⟨a1, _⟩ := splitLines_sched _ Acc.empty out.acc h1
+  have shD : ∀ l ∈ onDisk cfg (run cfg d1 d2 d3 ops), EqShape l := by
+    intro l hl
+    apply sh
+    unfold onDisk at hl
+    split at hl
+    · exact hl
+    · exact List.mem_of_mem_take hl
+  rw [a1, sched_eq _ shD]; simp [Acc.empty]
+
+/-! ## 10. findings of the second round, as closed counterexamples -/
+
+/-- `@subqap("dbl") def f(x): return x + x`, called inside `guarded(g)` with `g = PrivValBool(0)` (wire
+`main/2`): the result is not a single wire, `ensure_single` copies it in the CALLEE's context and, a guard
+being in effect, ties the copy to the guard through a dummy wire: `main/2 * main_2_dbl/4 = 0` -/
+def cexGuard : List Op :=
+  [.priv 3, .priv 0, .guard (some ⟨0, [(1, ("main", "2"))]⟩),
+   .enter "dbl" [⟨.lincomb, ⟨3, [(1, ("main", "1"))]⟩⟩] 0 0 0,
+   .leave [⟨.lincomb, ⟨6, [(1, ("main_2_dbl", "1")), (1, ("main_2_dbl", "1"))]⟩⟩] 0 0 0,
+   .guard none]
+
+/-- Finding: a guard in effect across a call boundary is a wire of the caller; the equation that ties the
+callee's fresh wire to it mixes contexts and `prove()` raises `ValueError("Inconsistent contexts")`; the
+equations themselves are true (the satisfaction theorems cover guarded histories) -/
+theorem C12_cex_guard_across :
+    (match prove id C12cfg (run C12cfg 0 0 0 cexGuard) with
+     | .error e => decide (e = .inconsistentContexts)
+     | .ok _ => false) = true ∧
+    decide (conLine [(1, ("main", "2"))] [(1, ("main_2_dbl", "4"))] [] ∈ (run C12cfg 0 0 0 cexGuard).eqs) = true ∧
+    scopedFrom C12cfg (St.init 0 0 0) cexGuard = false := by
+  refine ⟨?_, ?_, ?_⟩ <;> first | decide +kernel | fail "cexGuard"
+
+/-- `outer(x)`: `try: inner(x) except: pass; return x*x` where the body of `inner` raises at once -/
+def cexAbort : List Op :=
+  [.priv 3,
+   .enter "outer" [⟨.lincomb, ⟨3, [(1, ("main", "1"))]⟩⟩] 0 0 0,
+   .enter "inner" [⟨.lincomb, ⟨3, [(1, ("main_1_outer", "1"))]⟩⟩] 0 0 0,
+   .abort,
+   .priv 9, .con [(1, ("main_1_outer", "1"))] [(1, ("main_1_outer", "1"))] [(1, ("main_1_outer_1_inner", "2"))],
+   .leave [⟨.lincomb, ⟨9, [(1, ("main_1_outer_1_inner", "2"))]⟩⟩] 0 0 0]
+
+/-- Finding: an exception inside a body leaves `vc_ctx` in the aborted call: the product computed by
+`outer` afterwards is a wire of `inner`'s context, `outer`'s block lists it, `prove()` raises -/
+theorem C12_cex_abort_context :
+    (run C12cfg 0 0 0 (cexAbort.take 4)).ctx = "main_1_outer_1_inner" ∧
+    (match prove id C12cfg (run C12cfg 0 0 0 cexAbort) with
+     | .error e => decide (e = .inconsistentContexts)
+     | .ok _ => false) = true ∧
+    scopedFrom C12cfg (St.init 0 0 0) cexAbort = false := by
+  refine ⟨?_, ?_, ?_⟩ <;> first | decide +kernel | fail "cexAbort"
+
+/-! ## 11. what is on disk is text -/
+
+/-- `QapText.render` is the text `print` writes (tokens joined by single blanks), `QapText.parseLine` the
+reader written from the file grammar (`Spec/QapEq.lean`: split at blanks, first token decides the kind of
+line, coefficient/name alternation, names cut at their first `/`).  Every line of the six shapes whose
+names are well formed (no blank in a name, no `/` in a context; coefficients are arbitrary integers,
+printed in decimal) reads back as itself. -/
+theorem C12_text_roundtrip (l : Line) (h : LineWF l) : QapText.parseLine (QapText.render l) = some l :=
+  parse_render l h
+
+/-- For every history whose names are well formed (`OpWF`: function names and the contexts of traced wires
+without blank and `/`, local names without blank): every line of the equation file reads back from its
+text as itself, so does the file `prove()` reads, and `prove()` on the text (`proveText`) is `prove()` on
+the structured lines: the theorems above are theorems about the text on disk. -/
+theorem C12_text_file {Dg : Type} [DecidableEq Dg] (H : List Line → Dg) (cfg : Cfg) (d1 d2 d3 : Int)
+    (ops : List Op) (ho : ∀ op ∈ ops, OpWF op) :
+    let s := run cfg d1 d2 d3 ops
+    (∀ l ∈ s.eqs, QapText.parseLine (QapText.render l) = some l) ∧
+    readBack (onDisk cfg s) = some (onDisk cfg s) ∧ proveText H cfg s = prove H cfg s := by
+  intro s
+  have wf := text_run cfg d1 d2 d3 ops ho
+  have wfD : ∀ l ∈ onDisk cfg s, LineWF l := by
+    intro l hl
+    apply wf
+    unfold onDisk at hl
+    split at hl
+    · exact hl
+    · exact List.mem_of_mem_take hl
+  exact ⟨fun l hl => parse_render l (wf l hl), readBack_id _ wfD, proveText_eq H cfg s wfD⟩
+
+/-- `@subqap("a/b") def f(x): return x*x` called on `x = PrivVal(3)` -/
+def cexSlash : List Op :=
+  [.priv 3,
+   .enter "a/b" [⟨.lincomb, ⟨3, [(1, ("main", "1"))]⟩⟩] 0 0 0,
+   .priv 9, .con [(1, ("main_1_a/b", "1"))] [(1, ("main_1_a/b", "1"))] [(1, ("main_1_a/b", "2"))],
+   .leave [⟨.lincomb, ⟨9, [(1, ("main_1_a/b", "2"))]⟩⟩] 0 0 0]
+
+/-- Finding: a function name with `/`.  The structured lines would split; the TEXT reads back with the
+call's wires in context `main_1_a` (cut at the first `/`) while the `[ioblock]` line names `main_1_a/b`:
+`prove()` raises `ValueError("Inconsistent contexts")`. -/
+theorem C12_cex_slash_name :
+    (match proveText id C12cfg (run C12cfg 0 0 0 cexSlash) with
+     | .error e => decide (e = .inconsistentContexts)
+     | .ok _ => false) = true ∧
+    (match prove id C12cfg (run C12cfg 0 0 0 cexSlash) with
+     | .ok _ => true
+     | .error _ => false) = true ∧
+    decide (QapText.parseLine (QapText.render (oneLine "main_1_a/b")) =
+      some (pubLine ("main_1_a", "b/one") ("main_1_a", "b/onex"))) = true := by
+  refine ⟨?_, ?_, ?_⟩ <;> first | decide +kernel | fail "cexSlash"
+
+/-! ## 12. what the digest is applied to -/
+
+/-- The digest enters the model as a parameter; its ARGUMENT is fixed: with `H q = h (digestInput q)` for
+any function `h` on text (MD5 truncated to ten hexadecimal digits in the code), the signature recorded for a
+function is `h` of the text obtained by writing the lines of the normalised (sorted) equation set of a call
+one after the other, each rendered with single blanks, with NOTHING between the lines
+(`m.update(bytes(line, 'utf-8'))` per line).  The harness applies `hashlib.md5` to exactly this text and
+compares with the signature the real run hands to key generation. -/
+theorem C12_digest_input {Dg : Type} [DecidableEq Dg] (h : String → Dg) (D : List Line) (out : SplitOut Dg)
+    (hq : qapsplit (fun q => h (digestInput q)) D = .ok out) :
+    (∀ xf ∈ out.acc.fns, sigGet out.sigs xf.2 = some (h (digestInput (getqap out.acc xf.1)))) ∧
+    (∀ q : List Line, digestInput q = String.join (q.map QapText.render)) :=
+  ⟨(C12_split_files (fun q => h (digestInput q)) D out hq).2.2, fun _ => rfl⟩
+
+/-- two different (stripped, sorted) equation sets with the same digest input: the last digit of a name
+that ends one line can be the first digit of the coefficient that starts the next -/
+def collideA : List Line :=
+  [[.sym "*", .sym "=", .num 1, .loc "5", .num (-1), .loc "o_1"],
+   [.num 12, .loc "3", .sym "*", .num 1, .loc "1", .sym "=", .num 1, .loc "4", .sym "."]]
+def collideB : List Line :=
+  [[.sym "*", .sym "=", .num 1, .loc "5", .num (-1), .loc "o_11"],
+   [.num 2, .loc "3", .sym "*", .num 1, .loc "1", .sym "=", .num 1, .loc "4", .sym "."]]
+
+/-- Caveat for `C12_digest_partial`: its hypothesis (the digest separates the sets of the run) asks more
+than collision resistance of MD5, because the digest input itself does not determine the set: lines are
+hashed without a separator.  (No pair of sets of this kind was produced by generated programs: the line
+before the first coefficient is `* = 1 one -1 onex` in every real file.) -/
+theorem C12_digest_input_not_injective :
+    digestInput collideA = digestInput collideB ∧ collideA ≠ collideB ∧
+    sortLines collideA = collideA ∧ sortLines collideB = collideB := by
+  refine ⟨?_, ?_, ?_, ?_⟩ <;> first | decide +kernel | fail "collide"
+
+/-! ## non-vacuity of the second round -/
+
+/-- a history with a guard in effect across a call whose ARGUMENT is not a single wire (the copy is tied to
+the guard in the caller's own context: the split goes through), a call that raises and is caught at top
+level, and two calls of one function -/
+def exOps2 : List Op :=
+  [.priv 3, .priv 1, .guard (some ⟨1, [(1, ("main", "2"))]⟩),
+   .enter "sq" [⟨.lincomb, ⟨6, [(1, ("main", "1")), (1, ("main", "1"))]⟩⟩] 1 2 3,
+   .priv 36, .con [(1, ("main_2_sq", "1"))] [(1, ("main_2_sq", "1"))] [(1, ("main_2_sq", "2"))],
+   .leave [⟨.lincomb, ⟨36, [(1, ("main_2_sq", "2"))]⟩⟩] 4 5 6,
+   .guard none,
+   .enter "sq" [⟨.lincomb, ⟨3, [(1, ("main", "1"))]⟩⟩] 1 2 3,
+   .priv 9, .con [(1, ("main_7_sq", "1"))] [(1, ("main_7_sq", "1"))] [(1, ("main_7_sq", "2"))],
+   .leave [⟨.lincomb, ⟨9, [(1, ("main_7_sq", "2"))]⟩⟩] 4 5 6]
+
+/-- `C12_names_distinct`, `C12_eqs_sat_closed`, `C12_function_file_sat`, `C12_schedule_calls` on closed
+histories: names distinct, every hypothesis met, every line of every per-function file true for EVERY call of
+its function, three schedule entries and two `[glue]` lines in call order -/
+example :
+    let s := run C12cfg 1 2 3 exOps2
+    let E : Env := ⟨C12cfg.p, s.wires, s.ios⟩
+    (keysOk (s.wires ++ s.ios) &&
+     (consOf exOps2).all (fun c => Stmt.holds E.p E.asg (.mul c.1 c.2.1 c.2.2) == some true) &&
+     (lcsOf exOps2).all (fun x => match evalLC E.asg x.sig with | some v => decide (v % E.p = x.value % E.p) | none => false) &&
+     decide ((lcsOf exOps2).length = 5) &&
+     s.eqs.all (fun l => holds C12cfg.p (asgOf s.wires s.ios) "" l) &&
+     decide (callsOf C12cfg 1 2 3 exOps2 = [("main_2_sq", "sq"), ("main_7_sq", "sq")]) &&
+     decide (returnsOf C12cfg 1 2 3 exOps2 = [("main", "main_2_sq"), ("main", "main_7_sq")]) &&
+     (match prove id C12cfg s with
+      | .ok out =>
+        out.files.all (fun fq => out.acc.fns.all (fun xf =>
+          xf.2 != fq.1 || (getqap out.acc xf.1 == fq.2 && fq.2.all (fun l => holds C12cfg.p (asgOf s.wires s.ios) xf.1 l)))) &&
+        decide (out.acc.fns = [("main", "main"), ("main_2_sq", "sq"), ("main_7_sq", "sq")]) &&
+        decide (out.acc.schedule = [scheduleFunction "main" "main", scheduleFunction "main_2_sq" "sq",
+          glueLine "main" "4" "main_2_sq" "2", scheduleFunction "main_7_sq" "sq", glueLine "main" "9" "main_7_sq" "2"]) &&
+        out.files.length == 2
+      | .error _ => false)) = true := by first | decide +kernel | fail "exOps2"
+
+/-- `C12_text_roundtrip` / `C12_text_file` on closed histories: the names of `exOps` and `exOps2` are well
+formed, every line reads back from its text, the file reads back as itself; `C12_digest_input`: the
+signature recorded for `sq` is the stated text -/
+example :
+    ((run C12cfg 1 2 3 exOps).eqs.all (fun l => QapText.parseLine (QapText.render l) == some l) &&
+     (run C12cfg 1 2 3 exOps2).eqs.all (fun l => QapText.parseLine (QapText.render l) == some l) &&
+     decide (readBack (run C12cfg 1 2 3 exOps2).eqs = some (run C12cfg 1 2 3 exOps2).eqs) &&
+     (match proveText digestInput C12cfg (run C12cfg 1 2 3 exOps2) with
+      | .ok out => decide (sigGet out.sigs "sq" = some "* = 1 one -1 onex1 1 * 1 1 = 1 2 .[ioblock] 2 1 2")
+      | .error _ => false)) = true := by first | decide +kernel | fail "text example"
+
+/-- `C12_calls_bracketed` on closed histories: inside the nested pair of `exOps` three contexts are open,
+at its end `main` alone; after the aborted call of `cexAbort` the dead context stays open until the
+enclosing call returns -/
+example :
+    (decide (openEv [] ((run C12cfg 1 2 3 (exOps.take 7)).eqs.filterMap evOf) = some ["main_3_outer_1_inner", "main_3_outer", "main"]) &&
+     decide (openEv [] ((run C12cfg 1 2 3 exOps).eqs.filterMap evOf) = some ["main"]) &&
+     decide (openEv [] ((run C12cfg 0 0 0 (cexAbort.take 6)).eqs.filterMap evOf) = some ["main_1_outer_1_inner", "main_1_outer", "main"]) &&
+     decide (openEv [] ((run C12cfg 0 0 0 cexAbort).eqs.filterMap evOf) = some ["main"]) &&
+     decide (openEv ["main"] [.inr ("main", "other")] = none)) = true := by first | decide +kernel | fail "bracket example"
+
+/-- names stay distinct when function names spell other calls: `a_1_b` called from `main` at counter 0 and
+`b` called from `main_0_a` at counter 1 would both be `main_0_a_1_b`; the second `main`-level call gets a
+larger counter -/
+example :
+    let ops : List Op := [.enter "a" [] 0 0 0, .priv 1, .enter "b" [] 0 0 0, .leave [] 0 0 0, .leave [] 0 0 0,
+      .enter "a_1_b" [] 0 0 0, .abort, .enter "" [] 0 0 0]
+    let s := run C12cfg 0 0 0 ops
+    (keysOk (s.wires ++ s.ios) &&
+     decide ((callsOf C12cfg 0 0 0 ops).map Prod.fst = ["main_0_a", "main_0_a_1_b", "main_2_a_1_b", "main_2_a_1_b_0_"])) = true := by
+  first | decide +kernel | fail "names example"
 
 end Pysnark
